@@ -10,7 +10,7 @@ VERIF="$(cd "$(dirname "$0")/.." && pwd)"
 W="/var/tmp/refactor.$$"; mkdir -p "$W" "$OUT"; OUT="$(realpath "$OUT")"
 trap 'rm -rf "$W"' EXIT
 rsync -a /repo/ "$W/mut/" || exit 2
-(cd "$W/mut" && { git apply "$PATCH" 2>/dev/null || git update-index -q --refresh && git apply --3way "$PATCH" >/dev/null 2>&1; }) || { echo "REFACTOR: patch does not apply"; exit 2; }
+(cd "$W/mut" && { git apply "$PATCH" 2>/dev/null || { git update-index -q --refresh; git apply --3way "$PATCH" >/dev/null 2>&1; }; }) || { echo "REFACTOR: patch does not apply"; exit 2; }
 (cd "$W/mut" && go build ./... ) > "$OUT/build.log" 2>&1 || { echo "REFACTOR: does not build"; exit 2; }
 (cd "$W/mut" && go test -vet=off -count=1 ./... ) > "$OUT/suite.log" 2>&1 && echo "REFACTOR: existing suite passes" || { echo "REFACTOR: existing suite FAILS (rejected)"; exit 3; }
 for p in $PROPS; do
